@@ -624,6 +624,74 @@ def renderJ : JIR → List Tok
   | .ident a => pr (memoPy a .prev)
   | .plus l r => renderJ l ++ Tok.op .add :: renderJ r
 
+/-! #### (wave 5) the IR that `StockExpressions` builds for the net flow of a stock, for ANY lists of inflows and outflows
+
+`inflows = JoinedExpression(entity["inflow"], "+")`, `outflows = JoinedExpression(entity["outflow"], "+")`, then one of
+four branches: only inflows `()[in]`, only outflows `()[* [-1, ()[out]]]`, none `0`, both `()[- [in, ()[out]]]`. -/
+
+inductive SIR
+  | nothing                                  -- `{"type": "nothing"}` (JoinedExpression of no names)
+  | zero                                     -- `sum = 0`
+  | minus1                                   -- the literal `-1`
+  | ident (s : String)
+  | op (k : Bptk.Py.BinOp) (l r : SIR)       -- `{"name": "+" | "-" | "*", "type": "operator", "args": [l, r]}`
+  | paren (e : SIR)                          -- `{"name": "()", "type": "operator", "args": [e]}`
+deriving Repr, Inhabited, DecidableEq
+
+/-- `JoinedExpression(names, "+")`: nested to the right by the `reduce` loop over `reversed(rest)` -/
+def joinedS : List String → SIR
+  | [] => .nothing
+  | [a] => .ident a
+  | a :: b :: r => .op .add (.ident a) (joinedS (b :: r))
+
+/-- the `sum` node of `StockExpressions`; `inner = false` is the builder WITHOUT the `()` node around the joined outflows
+in the only-outflows branch (seeded defect `C04r3-outflow-sum-parens`) -/
+def sumSWith (inner : Bool) : List String → List String → SIR
+  | [], [] => .zero
+  | i :: is, [] => .paren (joinedS (i :: is))
+  | [], o :: os => .paren (.op .mul .minus1 (if inner then .paren (joinedS (o :: os)) else joinedS (o :: os)))
+  | i :: is, o :: os => .paren (.op .sub (joinedS (i :: is)) (.paren (joinedS (o :: os))))
+
+def sumS : List String → List String → SIR := sumSWith true
+
+open Bptk.Py in
+/-- tokens `parseExpression` emits for that IR inside `PREVIOUS(…)`: identifiers become `self.memoize('a',t-self.dt)`,
+infix operators are `"{} op {}"`, `()` is `( {} )`, numbers are their text -/
+def renderS : SIR → List Tok
+  | .nothing => []
+  | .zero => [Tok.num "0"]
+  | .minus1 => [Tok.op .sub, Tok.num "1"]
+  | .ident a => pr (memoPy a .prev)
+  | .op k l r => renderS l ++ Tok.op k :: renderS r
+  | .paren e => Tok.lp :: (renderS e ++ [Tok.rp])
+
+open Bptk.Py in
+/-- the whole stock equation as emitted: the fixed frame `( (init) if (t <= self.starttime) else (PREVIOUS(s) + DT * PREVIOUS(sum)) )`
+around the rendered `sum` node -/
+def stockToks (s : String) (init : List Tok) (net : List Tok) : List Tok :=
+  [Tok.lp, Tok.lp] ++ init ++ [Tok.rp, Tok.kif, Tok.lp, Tok.name "t", Tok.op .le, Tok.name "self", Tok.dot, Tok.name "starttime",
+    Tok.rp, Tok.kelse, Tok.lp] ++ pr (memoPy s .prev) ++ [Tok.op .add, Tok.name "self", Tok.dot, Tok.name "dt", Tok.op .mul] ++ net
+    ++ [Tok.rp, Tok.rp]
+
+/-- one probe of the real builder: names of the stock / inflows / outflows, the `sum` node it built, the tokens emitted
+for the stock (initial value `7.5`) -/
+structure BProbe where
+  s : String
+  ins : List String
+  outs : List String
+  ir : SIR
+  toks : List Bptk.Py.Tok
+
+open Bptk.Py in
+def bprobeOK (e : BProbe) : Bool :=
+  decide (e.ir = sumS e.ins e.outs) && decide (e.toks = stockToks e.s [Tok.num "7.5"] (renderS e.ir))
+
+/-- every probe is the model's IR and text, and each of the four branches is probed with one, two and more names -/
+def builderOK (ps : List BProbe) : Bool :=
+  ps.all bprobeOK &&
+    [(0, 0), (1, 0), (2, 0), (3, 0), (0, 1), (0, 2), (0, 3), (1, 1), (2, 2), (3, 3)].all
+      (fun (a, b) => ps.any (fun e => e.ins.length == a && e.outs.length == b))
+
 open Bptk.Py in
 /-- wave-2 probe of larger shapes (run by the driver, any n): the emitted tokens are exactly the intended
 text of a stock `e0` with initial value `7.5`, inflows `e1..e<nin>`, outflows after them -/
